@@ -24,7 +24,7 @@ from .. import tlc, wcsutil
 from ..tlaparse import parse_dump
 
 U = 4                     # model lengths are quarter pixels
-BASE_ARCSEC = 0.09        # model scale 1 = 0.09 arcsec / pixel (2.5e-5 deg)
+BASE_ARCSEC = 0.0907213568   # model scale 1 = about 0.09 arcsec / pixel (2.5e-5 deg); deliberately not a round number
 CFG = """SPECIFICATION Spec
 CONSTANTS Rots <- {rots}
  Scales <- {scales}
@@ -45,13 +45,16 @@ SKYCLS = {'CirclePixelRegion': 'CircleSkyRegion', 'EllipsePixelRegion': 'Ellipse
           'CompoundPixelRegion': 'CompoundSkyRegion'}
 
 
-def real_wcs(w, k, crpix=None, lat=None):
+BASE6 = 0.0101371934      # C06 runs the model with a scale unit of about 0.01 arcsec / pixel (set S6); not a round number, so that angular sizes are not either
+
+
+def real_wcs(w, k, crpix=None, lat=None, base=None):
     frame = FRAMES[k % len(FRAMES)]
     proj = PROJS[(k // 4) % len(PROJS)]
     crval = ((37.0 * k) % 360.0, lat if lat is not None else [20.0, -45.0, 0.0, 60.0, -5.0][k % 5])
     if proj == 'CAR':
         crval = (crval[0], 0.0)           # CAR is conformal only on the equator
-    scale_deg = w['scale'] * BASE_ARCSEC / 3600.0
+    scale_deg = w['scale'] * (base or BASE_ARCSEC) / 3600.0
     return wcsutil.make_wcs(scale_deg, tuple(w['rot']), w['parity'], frame, proj, crval, crpix or (8.0, -4.0)), (frame, proj, crval)
 
 
@@ -167,7 +170,10 @@ def kindsig(r):
 def check_state(ctx, st, idx, pid='C06'):
     from regions import PixCoord
     w, r = st['w'], st['pix']
-    wcs, conf = real_wcs(w, idx)
+    # at the coarse end of the scale range the reference pixel lies a few hundred pixels from the region, where a projection visibly
+    # stretches the sky (the pixel image of a sky shape is still the shape the local scale and angle give)
+    coarse = w['scale'] >= 10000
+    wcs, conf = real_wcs(w, idx, crpix=(258.0, -154.0) if coarse and idx % 2 else ((-172.0, 196.0) if coarse else None), base=BASE6)
     case = {'wcs': w, 'config': conf, 'region': r}
     sig = f'{pid}|'
     try:
@@ -230,7 +236,7 @@ def check_state(ctx, st, idx, pid='C06'):
             exp = math.degrees(math.atan2(w['parity'] * w['rot'][1], w['rot'][0])) + rot0
             d0 = math.remainder(float(p0.visual.get('rotation', 1e9)) - exp, 360.0)
             d1 = math.remainder(float(s1.visual.get('rotation', 1e9)) - rot0, 360.0)
-            if abs(d0) > 0.5 or abs(d1) > 1e-6:
+            if (abs(d0) > 0.5 and not coarse) or abs(d1) > 1e-6:      # (far from the reference pixel local north turns with the meridians: no closed form here)
                 ctx.violation(sig + 'meta|text|sky-first-rotation', f"a sky text with rotation {rot0!r}: pixel rotation {p0.visual.get('rotation')!r} (expected about {exp:.3f}), "
                               f"back on the sky {s1.visual.get('rotation')!r}", case)
                 return True
@@ -266,7 +272,9 @@ def check_state(ctx, st, idx, pid='C06'):
             ctx.violation(sig + f'units-raises|{kindsig(r)}|{type(ex).__name__}', f'sky region given in other units: to_pixel raised {ex!r}', case)
             return True
     # a circle / circular annulus whose centre is given in FK5 at another equinox (same point of the sky, same sizes) has the same pixel image
-    if r['k'] in ('circle', 'cannulus') and conf[0] != 'fk4':       # (FK4 <-> FK5 is not a pure rotation: astropy's own round trip is only good to ~1e-4 px)
+    # (not at the coarse end: 12 degrees off the axis of a projection the local scale differs by direction, and the code measures it along the
+    # north of the frame the centre is given in - the pixel image then depends on that frame at the per-cent level, which the statement does not exclude)
+    if r['k'] in ('circle', 'cannulus') and conf[0] != 'fk4' and not coarse:       # (FK4 <-> FK5 is not a pure rotation: astropy's own round trip is only good to ~1e-4 px)
         from astropy.coordinates import FK5
         try:
             with warnings.catch_warnings():
@@ -383,6 +391,43 @@ def check_state(ctx, st, idx, pid='C06'):
             except Exception as ex:  # noqa
                 ctx.violation(sig + f'member-after-edit|{kindsig(r)}|{type(ex).__name__}', f'editing and re-querying a sky region raised {ex!r}', case)
                 return True
+        if not bad.any():
+            # positions hugging the boundary: along rays from a point of the region the membership change is bracketed in pixel space,
+            # and the sky region is asked at 1% and 3% of that distance on either side of it
+            cx0, cy0 = r.get('cx', 40) / U, r.get('cy', -24) / U
+            if r['k'] == 'polygon':
+                cx0, cy0 = 7.0, 5.0
+            if r['k'] == 'compound':
+                cx0, cy0 = r['a'].get('cx', 40) / U, r['a'].get('cy', -24) / U
+            th = np.linspace(0.0, 2 * np.pi, 48, endpoint=False) + 0.013 * (idx % 7)
+            ux, uy = np.cos(th), np.sin(th)
+            ts = np.linspace(0.05, 30.0, 600)
+            inside = np.asarray(pix.contains(PixCoord(cx0 + np.outer(ts, ux), cy0 + np.outer(ts, uy))))
+            flips = inside[1:] != inside[:-1]
+            bx, by = [], []
+            for j in range(len(th)):
+                for i0 in np.nonzero(flips[:, j])[0][:2]:
+                    tb = 0.5 * (ts[i0] + ts[i0 + 1])
+                    for f in (0.99, 1.01, 0.97, 1.03):
+                        bx.append(cx0 + f * tb * ux[j])
+                        by.append(cy0 + f * tb * uy[j])
+            if bx:
+                bx, by = np.array(bx), np.array(by)
+                pcb = PixCoord(bx, by)
+                refb = np.asarray(pix.contains(pcb))
+                nearb = np.zeros(len(bx), dtype=bool)
+                for dxy in ((0.02, 0), (-0.02, 0), (0, 0.02), (0, -0.02), (0.015, 0.015), (-0.015, -0.015), (0.015, -0.015), (-0.015, 0.015)):
+                    nearb |= np.asarray(pix.contains(PixCoord(bx + dxy[0], by + dxy[1]))) != refb
+                with warnings.catch_warnings():
+                    warnings.simplefilter('ignore')
+                    gotb = np.asarray(sky.contains(wcs.pixel_to_world(bx, by), wcs))
+                badb = (~nearb) & (gotb != refb)
+                ctx.dontcare += int(nearb.sum())
+                if badb.any():
+                    i = int(np.nonzero(badb)[0][0])
+                    ctx.violation(sig + f'member-boundary|{kindsig(r)}', f'{int(badb.sum())} of {int((~nearb).sum())} positions within 3% of the boundary answered differently by the sky region and its pixel image',
+                                  dict(case, position=[float(bx[i]), float(by[i])], pixel_says=bool(refb[i]), sky_says=bool(gotb[i])))
+                    return True
         ctx.dontcare += int(near.sum())
         if bad.any():
             i = int(np.nonzero(bad)[0][0])
@@ -403,7 +448,7 @@ def _state_fn(rec, st, idx):
 
 def run(ctx):
     quick = ctx.tier == 'quick'
-    res = tlc.run('MC_Wcs', cfg_text=CFG.format(rots='Dirs5', scales='S3', par='PBoth', regs='RegsC06'), dump=True, tag='c06')
+    res = tlc.run('MC_Wcs', cfg_text=CFG.format(rots='Dirs5', scales='S6', par='PBoth', regs='RegsC06'), dump=True, tag='c06')
     ctx.tlc(res, 'MC_Wcs all classes incl. compounds x rotations x scales x parities')
     if res.violated:
         ctx.violation(f'C06|model|{res.violated}', f'Wcs.tla: invariant {res.violated} fails in the model', {'trace': res.trace[-1:]})
